@@ -253,6 +253,27 @@ func init() {
 		w, _ := R.mutexHeld(args[0].(iface).v.(*value))
 		return w
 	}
+	// verifRange(lo, hi): a symbolic int in [lo,hi] constrained without branching.
+	verifIntrinsics["verifRange"] = func(fr *frame, args []value) value {
+		lo, hi := asInt64(args[0]), asInt64(args[1])
+		if lo > hi {
+			R.pruned = true
+			panic(runAbort{"empty range"})
+		}
+		if lo == hi {
+			return int(lo)
+		}
+		v := R.newNondet(64)
+		if v.isConst() { // pinned
+			if sext(v.val, 64) < lo || sext(v.val, 64) > hi {
+				R.pruned = true
+				panic(runAbort{"assume false"})
+			}
+			return int(v.val)
+		}
+		R.addPC(mkAnd(bvCmp("bvsle", mkConst(64, uint64(lo)), v), bvCmp("bvsle", v, mkConst(64, uint64(hi)))))
+		return symVal(v, types.Int)
+	}
 	verifIntrinsics["verifLog"] = func(fr *frame, args []value) value {
 		R.ghost = append(R.ghost, toGoString(args[0]))
 		return nil
